@@ -171,6 +171,10 @@ def c19(rep, tier):
     r_partials.run_cache_key(p, rep)
     r_partials.run_loud(p, rep)
     r_lock.run_lock(p, rep)
+    # on-demand compiles a partial again on every use, eager/lazy once: the policies agree only if compiling is a pure
+    # function of the text (no process-wide counter or clock consulted while parsing, no identity given to a compiled node)
+    r_freeze.run_statics(p, rep)
+    r_lock.run_ambient(p, rep)
     g = grammar.load(facts.REPO)
     r_panic.run(p, rep, g, "both", only=_partial_files)
     rep.analysed["config:all"] = {"bodies": len(p.fns)}
@@ -203,6 +207,8 @@ def c11(rep, tier):
     p = P("all")
     r_cmp.run_delegation(p, rep)
     r_cmp.run_mirror(p, rep)
+    r_cmp.run_cmp_orientation(p, rep)
+    r_cmp.run_contains(p, rep)
     r_cmp.run_value_symmetry(p, rep)
     r_cmp.run_orderins(p, rep, [r_cmp.CORE_FNS["value_eq"], r_cmp.CORE_FNS["value_cmp"]])
     r_cmp.run_eqonly(p, rep)
@@ -216,6 +222,9 @@ def c14(rep, tier):
     r_cmp.run_cmptotal(p, rep)
     r_cmp.run_eqonly(p, rep)
     r_cmp.run_orderins(p, rep, [r_cmp.CORE_FNS["value_eq"], r_cmp.CORE_FNS["value_cmp"]])
+    # the comparator sort is built on: scalar_eq / scalar_cmp agree pairwise and are mirror-symmetric (a non-decreasing result needs a consistent order)
+    r_cmp.run_mirror(p, rep)
+    r_cmp.run_cmp_orientation(p, rep)
     r_table.run_filter_ops(p, rep, only=["array::"])
     r_table.run_state_use(p, rep, only=["WhereFilter"])
     rep.analysed["config:all"] = {"bodies": len(p.fns)}
@@ -225,6 +234,7 @@ def c15(rep, tier):
     p = P("all")
     r_arith.run(p, rep, scope=lambda fn: fn.id.startswith("liquid_lib::stdlib::filters::math::"))
     r_math.run(p, rep)
+    r_math.run_coerce(p, rep)
     r_table.run_filter_ops(p, rep, only=["math::"])
     rep.analysed["config:all"] = {"bodies": len(p.fns)}
 
@@ -314,6 +324,7 @@ def c16(rep, tier):
     import r_strslice
     fns = [f for f in p.fns.values() if f.id.startswith("liquid_lib::stdlib::filters::html::") or f.id.startswith("liquid_lib::stdlib::filters::url::")]
     r_strslice.run(p, rep, sorted(fns, key=lambda f: f.id))
+    r_unit.run_unit_mix(p, rep, only=["filters::html::", "filters::url::"])
     rep.analysed["config:all"] = {"bodies": len(p.fns)}
 
 
@@ -332,6 +343,7 @@ def c17(rep, tier):
 def c13(rep, tier):
     p = P("all")
     r_unit.run(p, rep)
+    r_unit.run_unit_mix(p, rep)
     r_unit.run_split_join(p, rep)
     r_unit.run_truncate_decision(p, rep)
     r_table.run_filter_ops(p, rep, only=["string::", "html::NewlineToBr", "slice::", "SizeFilter"])
@@ -346,6 +358,7 @@ def c13(rep, tier):
 def c12(rep, tier):
     p = P("all")
     r_views.run_forwarders(p, rep)
+    r_views.run_string_siblings(p, rep)
     r_views.run_cast(p, rep)
     r_views.run_derived(p, rep)
     r_table.run_truth_table(p, rep)
